@@ -1,1 +1,4 @@
-// harnesses for module m_exec (included into /repo under cfg(kani))
+// Support for C01 action flags (exec matchers built directly, without touching the environment).
+use super::*;
+pub fn single_exec_empty() -> SingleExecMatcher { SingleExecMatcher { executable: String::new(), args: Vec::new(), exec_in_parent_dir: false } }
+pub fn multi_exec_empty() -> MultiExecMatcher { MultiExecMatcher { executable: String::new(), args: Vec::new(), exec_in_parent_dir: false, command: RefCell::new(None) } }
